@@ -33,12 +33,23 @@ def run(tier, rng, C):
         if rng.random() < 0.6:
             kind = rng.choice(['m', 'l'])
             vals = [v if v[0] == kind or v[0] == 'n' else (('m', [(S('x'), v)]) if kind == 'm' else ('l', [v])) for v in vals]
+        same = {}
+        if rng.random() < 0.3:
+            # the same value (and, in the reference twin, textually the same reference) in adjacent layers
+            j0 = rng.randrange(nl - 1)
+            vals[j0 + 1] = vals[j0]
+            same[j0 + 1] = j0
         subset = [j for j in range(nl) if rng.random() < 0.5] or [rng.randrange(nl)]
+        for j1, j0 in same.items():
+            if j0 in subset and j1 not in subset:
+                subset.append(j1)
         inline, refd = [], []
         helpers = []
         for j, v in enumerate(vals):
             tv_in = v
-            if j in subset:
+            if j in subset and j in same and same[j] in subset:
+                tv_ref = S('${h%d}' % same[j])
+            elif j in subset:
                 tv_ref = S('${h%d}' % j)
                 hv = v
                 if rng.random() < 0.3 and v[0] != 'n':
